@@ -22,15 +22,17 @@ BUDGET = {"quick": 50, "thorough": 600}
 MAX_RUNS = {"quick": 4000, "thorough": 400000}
 
 RULE = (
-    "One run = one object (GMMMachine: ML or MAP with a prior, scalar/vector/matrix floors, any "
-    "update switches, iteration limit in {None,0..9}, threshold in {None, values}, optionally "
-    "pre-trained for a few steps; or GMMStats: accumulated from data, zero, or arbitrary values) "
-    "taken through a seeded chain of 1..4 restart-from-durable-state steps (save by path|open "
-    "file; reload by from_hdf5 path|open file, or load into an existing object of the same or a "
-    "different shape), each followed by: bit-identity of parameters/statistics, equality under "
-    "==, identical scores on a probe batch, every recorded setting equal, identical continued "
+    "One run = one object (GMMMachine: ML or MAP with a prior, 1..128 components, scalar/vector/"
+    "matrix floors, any update switches, iteration limit in {None,0..9}, threshold in {None, "
+    "values}, optionally pre-trained; or GMMStats: accumulated from data, zero, or arbitrary "
+    "values) taken through a seeded chain of 1..4 restart-from-durable-state steps (save by path|"
+    "open file; reload by from_hdf5 path|open file, load into an existing object of the same or "
+    "a different shape, or roll back: load into a copy of the saved object that has drifted by "
+    "0..1e-3), each followed by: bit-identity of parameters/statistics, equality under ==, "
+    "identical scores on a probe batch, every recorded setting equal, identical continued "
     "training, re-save equals the first file dataset by dataset, legacy-layout image loads to "
-    "the same model. Non-trivial = chain length >= 1 (always); distinct = distinct case digest."
+    "the same model (always checked for machines with >= 9 components). Non-trivial = chain "
+    "length >= 1 (always); distinct = distinct case digest."
 )
 ASSUMPTIONS = [
     "real h5py on real files; no storage faults are injected (DESIGN.md §4.2: the property "
